@@ -17,7 +17,7 @@ RULE = ('one case = one real `-T file --threads k` run over 2-3 scripted servers
         'plus gated 3-target runs with --threads 2 in both gate orders; thorough: all ordered triples, threads 1/2/3/32, every gate permutation, two hash seeds.  The in-process monitor records (thread, target, table pristine at entry) '
         'so the evidence lists the distinct "previous target on this thread -> this target" contexts actually produced.  Non-trivial: at least one target ran on a thread that had already served another target, or two targets ran concurrently; '
         'distinct = distinct (target list, threads, gate order, format)')
-REQUIRED = {'single_entry_files': 6, 'runs_with_extra_options': 8, 'targets_listed_twice': 6, 'default_port_entries': 6, 'multi_runs': 40, 'blocks_compared': 80, 'thread_reuse_contexts': 30, 'json_runs': 8, 'policy_runs': 4, 'gated_runs': 4, 'master_digest_checks': 40}
+REQUIRED = {'failpoints_fired': 6, 'single_entry_files': 6, 'runs_with_extra_options': 8, 'targets_listed_twice': 6, 'default_port_entries': 6, 'multi_runs': 40, 'blocks_compared': 80, 'thread_reuse_contexts': 30, 'json_runs': 8, 'policy_runs': 4, 'gated_runs': 4, 'master_digest_checks': 40}
 ASSUMPTIONS = ['a per-target block is compared after removing the "(gen) target:" line and surrounding blank lines; a JSON element after removing "target"',
                'the table-pristine observation is diagnostic only: the verdict is decided on output equality']
 MANIFEST = {
@@ -69,6 +69,10 @@ def cases(tier, seed):
     for i, a in enumerate(['clean', 'rsa1024', 'terrapin', 'ssh1'] if tier == 'quick' else A):
         for th in (1, 2):
             cs.append({'kind': 'seq', 'targets': [a], 'threads': th, 'fmt': 'json' if (i + th) % 2 else 'text', 'alone': True})
+    # a scan that ends in an exception after it has run (injected by the monitor where the scan function returns): the worker's error paths leave nothing behind for the next target either
+    for i, (a, b) in enumerate([('rsa1024', 'clean'), ('gex1024', 'openssh-new'), ('terrapin', 'clean'), ('cert-small-ca', 'clean')] if tier == 'quick' else [(a, b) for a in ('rsa1024', 'gex1024', 'terrapin', 'cert-small-ca', 'warn-only') for b in ('clean', 'openssh-new', 'good-only')]):
+        for exc in ('RuntimeError', 'SystemExit'):
+            cs.append({'kind': 'failpoint', 'targets': [a, b], 'threads': 1, 'fmt': 'text', 'exc': exc})
     pol_pairs = [('clean', 'rsa1024'), ('rsa1024', 'clean'), ('gex1024', 'clean'), ('clean', 'clean'), ('terrapin', 'cert-small-ca'), ('cert-small-ca', 'clean')]
     for i, (a, b) in enumerate(pol_pairs if tier == 'quick' else list(itertools.permutations([x for x in A if x not in ('ssh1', 'no-probes')], 2))):
         cs.append({'kind': 'policy', 'targets': [a, b], 'threads': 1 if i % 3 else 2, 'fmt': 'json' if i % 2 else 'text'})
@@ -137,7 +141,8 @@ def run_case(c):
             file_lines = [targets['ab'.index(ch)].spec for ch in c['layout']]
             counters['targets_listed_twice'] = 1
         listed = file_lines if file_lines is not None and c['kind'] == 'dup' else [t.spec for t in targets]
-        res = multi.run_multi(targets, c['threads'], c['fmt'], extra=extra, gate_order=c.get('gate_order'), monitors=['calls', 'tables'], tmo=30 if gated else None, hashseed=c.get('hashseed', '0'), timeout=180, file_lines=file_lines)
+        spec = {'failpoint': {'port': targets[0].peer.port, 'exc': c['exc']}} if c['kind'] == 'failpoint' else None
+        res = multi.run_multi(targets, c['threads'], c['fmt'], extra=extra, gate_order=c.get('gate_order'), monitors=['calls', 'tables'], tmo=30 if gated else None, hashseed=c.get('hashseed', '0'), timeout=180, file_lines=file_lines, spec=spec)
         r = res['run']
         if r.timed_out:
             return {'verdict': 'inconclusive', 'why': 'watchdog'}
@@ -164,8 +169,16 @@ def run_case(c):
             counters['master_digest_checks'] = 1
             if not md[0].get('same'):
                 viol.append(_v('C07/master-table-modified', 'the master rating tables were modified by a scan'))
+        if c['kind'] == 'failpoint':
+            fired = [e for e in (r.monitor or []) if e['k'] == 'failpoint']
+            if not fired:
+                return {'verdict': 'inconclusive', 'why': 'the failpoint was not reached'}
+            counters['failpoints_fired'] = len(fired)
+            later = [e for e in entry if e.get('port') == targets[1].peer.port]
+            if any(not e.get('pristine') for e in later):
+                viol.append(_v('C07/tables-dirty-at-entry:after-failed-scan:' + c['exc'], 'after a scan that ended in an exception the next target of the same worker starts from annotated tables', dirty=[e.get('dirty') for e in later][:2]))
         # ----------------------------------------------------------- per-target comparison
-        for t in targets:
+        for t in (targets[1:] if c['kind'] == 'failpoint' else targets):
             if c['kind'] == 'policy' or c.get('opts'):
                 want_status, want = single(t.name, c['fmt'], tuple(extra))
             else:
